@@ -3,7 +3,7 @@
 import ast
 
 from ..index import unparse, iter_own_nodes
-from . import common, c02, c03, c04, c08, c09, c10, c13
+from . import common, c02, c03, c04, c06, c08, c09, c10, c13
 
 EXPLANATION = (
     "PARTIAL.  Not decided: round-trip EQUALITY of trees and field values over all programs and JSON values "
@@ -117,3 +117,6 @@ def run(chk):
     c03.rule_start(chk)
     c03.rule_once(chk)
     c03.rule_truthful(chk)  # 'outcome statuses' of the emitted tree are those of the executed actions
+    c03.rule_failfields(chk)
+    c06.rule_reserve_and_codec(chk)  # remote sub-tasks continue at the reserved position
+    c09.rule_model(chk, prefix="C01")
